@@ -94,14 +94,29 @@ func runC18(c *Ctx) {
 		styleOf[l.Name()] = s
 		image[s] = append(image[s], l.Name())
 	}
-	// styles the delimiter functions distinguish (constants of the style type they compare against)
-	var delimFns []*ssa.Function
-	for _, n := range []string{"SingleLineCommentStart", "MultilineCommentStart", "MultilineCommentEnd"} {
-		delimFns = append(delimFns, pkgClosure(tfn[n], langPkg)...)
-	}
+	// styles that have a delimiter row: the delimiter functions are read once more with commentStyle's result fixed
+	// to each style in turn (for every language, because a row can depend on the language too); a style for which some
+	// delimiter comes back non-empty has a row, however the rows are stored (switch, array, map)
 	usedInTables := map[string]bool{}
-	for v := range eng.ConstOperandsOfType(delimFns, styleT) {
-		usedInTables[styleName[v]] = true
+	for _, st := range styles {
+		ce2 := eng.NewConstEvaluator()
+		ce2.Override[tfn["commentStyle"]] = []constant.Value{st.Val()}
+		for _, n := range []string{"SingleLineCommentStart", "MultilineCommentStart", "MultilineCommentEnd"} {
+			for _, l := range langs {
+				res, err := ce2.Eval(tfn[n], []constant.Value{l.Val()})
+				if err != nil || len(res) != 1 || res[0].Kind() != constant.String {
+					msg := "unexpected result shape"
+					if err != nil {
+						msg = err.Error()
+					}
+					c.R.Undecided("R18.1", "language table "+n, langPkg, "cannot read the table for style "+st.Name()+": "+msg)
+					return
+				}
+				if constant.StringVal(res[0]) != "" {
+					usedInTables[st.Name()] = true
+				}
+			}
+		}
 	}
 	var names []string
 	for k := range usedInTables {
